@@ -15,8 +15,10 @@ IDENT = {
     13: "meth",  # pvd.meth : a service with an entity_id parameter (entity service method)
     14: "svc",   # pvd.svc  : a service registered / removed externally during the run
     15: "get",   # state.get : a pyscript function name
+    16: "meth2",  # pvd.meth2 : a second entity service of the same domain (registered / removed externally)
     20: "a0", 21: "a1", 22: "a2",
     23: "value",  # attribute whose name collides with a parameter of State.set
+    24: "count", 25: "title",   # attribute names that are also str methods (hasattr(str, name))
     # 100.. virtual attribute names, 120.. callable attribute names: assigned from the source by the translator
     100: "entity_id", 101: "last_changed", 102: "last_updated", 103: "last_reported",
 }
@@ -26,11 +28,12 @@ EXTRA_BASE = 150   # virtual names the translator finds in the source that are n
 
 DOMAINS = [1, 2, 3, 4]
 ENTITIES = [(1, 10), (1, 11), (1, 12), (1, 14), (2, 10), (3, 10), (3, 11), (4, 15)]
-ATTRS = [20, 21, 22, 23, 100]
+ATTRS = [20, 21, 22, 23, 100, 24]
 SLOTS = [0, 1, 2]
 GLOBAL_OBJ = 3          # ident of the global Python variable (an object with attributes e0/e1)
 LOCAL_OBJ = 2           # ident of the local Python variable some steps bind
-SVC_ARG = (1, 13)       # pvd.meth has an entity_id parameter
+SVC_ARG = (1, 13)       # pvd.meth has an entity_id parameter (registered and refreshed before the first step)
+METHOD_SVCS = [(1, 13), (1, 16), (2, 13)]   # entity services external steps may register / remove: pvd.meth, pvd.meth2, pvl.meth
 DYN_SVC = (1, 14)       # pvd.svc is registered/removed by external steps
 FUNC_NAME = (4, 15)     # state.get
 
@@ -113,3 +116,19 @@ def value_of(vid):
 def py_literal(vid):
     """source text of the literal with this id"""
     return repr(value_of(vid))
+
+
+def str_attr_idents():
+    """identifiers that every str (hence every StateVal) has as an attribute"""
+    return sorted(i for i, n in IDENT.items() if hasattr(str, n))
+
+
+def py_attr_pairs():
+    """(value id, identifier) with hasattr(value, name) for the plain values of the fixed tables"""
+    out = []
+    for vid in [V_NONE] + sorted(FIXED):
+        v = value_of(vid)
+        for i, n in sorted(IDENT.items()):
+            if hasattr(v, n):
+                out.append((vid, i))
+    return out
